@@ -21,8 +21,12 @@ LEVEL_TEXT = ('Theorems (Props/C13.v): the record reader\'s seek arithmetic, tra
               'C13_record_at_seek_position); the translated timerange generator terminates with '
               'the orbit whenever the end time is reached and provably never terminates when the end date is below the start date '
               '(C13_timerange_terminates, C13_timerange_diverges_refuted). Tie H: both library readers on the same reference-encoded files, '
-              'views compared; captured seeks == translated arithmetic.')
-LEVEL_NOTE = 'Trusted: Coq kernel+vm_compute, py2coq, harness. Met-format reader pairs are compared by correspondence only.'
+              'views compared; captured seeks == translated arithmetic. '
+              'ONE3D FAMILY (one3d / humidity / vertical_diffusivity; Model/One3d.v, Proofs/One3dProofs.v; Memmap reader model with the translated record_items and time_steps expressions, reshapes / first-stamp-change / memmap size rules hand-modelled): the record reader\'s seek arithmetic is TRANSLATED from one3d/Read.py (C13_one3d_recordposition_is_spec_offset), '
+              'both readers present the same cells (C13_one3d_readers_agree_on_data), the hand-modelled probing finds the layout on files with >= 2 steps '
+              'and fails on single-step files (C13_one3d_probe_finds_layout, C13_one3d_probe_single_step). Tie H: constructor OC of Corr/C13.v (probe == '
+              'library header fields and step count, every getArray seek at the translated position, cells presented == words found there).')
+LEVEL_NOTE = 'Trusted: Coq kernel+vm_compute, py2coq, harness. temperature / height_pressure / wind reader pairs are compared by correspondence only.'
 TECHNIQUE = 'Coq proof over source-translated arithmetic + differential correspondence of both readers'
 
 
@@ -123,7 +127,7 @@ def coq_term(case, obs):
         selft = ('{| ur_nlayers := 1; ur_start_date := 0; ur_start_time := 0; ur_time_step := 1; ur_nspec := 1; '
                  'ur_data_start_byte := 0; ur_padded_size := 0; ur_padded_time_hdr_size := 0 |}')
         seeks = '[]'
-    return '(Case %s %s %s %s %s %s %s %s %s %s None)' % (
+    return '(UC (Case %s %s %s %s %s %s %s %s %s %s None))' % (
         L.coq_uamiv(c), hours, C.zlist(ws), C.cbool(obs.get('mm_ok', False)), _view(c, obs.get('mm'), obs.get('mm_ok', False)),
         C.cbool(obs.get('rd_ok', False)), _view(c, obs.get('rd'), obs.get('rd_ok', False)),
         C.cbool(obs.get('rd_timeout', False)), selft, seeks)
@@ -166,6 +170,8 @@ _impl_u = impl
 
 
 def impl(case):  # noqa: F811
+    if MC.is_o3(case):
+        return MC.run_o3_read(case)
     if case['kind'].startswith('met-'):
         return MC.run_met(case)
     return _impl_u(case)
@@ -175,6 +181,8 @@ _coq_u = coq_term
 
 
 def coq_term(case, obs):  # noqa: F811
+    if MC.is_o3(case):
+        return None if 'raises' in obs else MC.o3_term_read(case, obs)
     if case['kind'].startswith('met-') or case['kind'] == 'uamiv-EMISSIONS-nz0':
         return None
     return _coq_u(case, obs)
